@@ -11,6 +11,13 @@
 (*            ciphertext was made by the reference (Plan_Hybrid) for plaintext    *)
 (*            e.want; class = "mut": a mutated input, the reference must reject.  *)
 (*                                                                               *)
+(* Inputs (pt, info, ct) are logged from copies the implementation never had      *)
+(* access to.  A caller may reuse his buffers: e.pre = "same" marks a call that     *)
+(* follows an identical call on the SAME buffers, e.pre = "wrongctx" one that       *)
+(* follows a failing attempt with context e.pre_info on the same ciphertext buffer. *)
+(* Such a call is judged like any other: with the right key and context the        *)
+(* plaintext must come back (round-trip clause), whatever happened before.          *)
+(*                                                                               *)
 (* ML-KEM decapsulation is an assumed primitive: the event carries the answer      *)
 (* (ml_ok, ml_ss) of Go's crypto/mlkem for the query (ml_param, ml_seed, ml_ct);   *)
 (* the specification itself decides WHICH query it makes (which bytes are the     *)
